@@ -25,6 +25,7 @@ ASSUMPTIONS = [
     'tolerance 1e-9 (hyperu 1e-6) relative to max(1, max_{k<=d}|ref_k|); inputs keep a margin from singularities/kinks',
     'numpy.<f>(UTPM) raises ValueError on this NumPy for every ufunc; not part of the statement, not asserted',
     'up to 6 scalar positions (p, element) per case are compared against the oracle; D <= 6 quick, <= 10 thorough',
+    'largeD buckets: D in {12,...,28} on scalar series with |x_1| = 0.5..0.9 of the distance to the nearest singularity; reference = mpmath scaled derivatives of f at x_0 (numerical differentiation of f, or mpmath psi/hyperu at shifted parameters) composed with exact truncated powers of x(t)-x_0 in multiprecision',
 ]
 
 pi = mpmath.pi
@@ -347,6 +348,89 @@ def kink_cases(draw, name, tier):
 
 
 # ---------------------------------------------------------------------------
+# large numbers of coefficients (the statement says "any number of coefficients D")
+# ---------------------------------------------------------------------------
+
+def _seq_generic(fmp):
+    return lambda x0, D: mpmath.taylor(fmp, x0, D - 1)
+
+
+LARGE = {
+    'exp': (UNARY['exp'][0], _seq_generic(mpmath.exp), R((-1, 1))),
+    'log': (UNARY['log'][0], _seq_generic(mpmath.log), R((0.8, 3))),
+    'sqrt': (UNARY['sqrt'][0], _seq_generic(mpmath.sqrt), R((0.8, 3))),
+    'sin': (UNARY['sin'][0], _seq_generic(mpmath.sin), R((-2, 2))),
+    'cos': (UNARY['cos'][0], _seq_generic(mpmath.cos), R((-2, 2))),
+    'tan': (UNARY['tan'][0], _seq_generic(mpmath.tan), R((-0.5, 0.5))),
+    'arctan': (UNARY['arctan'][0], _seq_generic(mpmath.atan), R((-0.4, 0.4))),
+    'tanh': (UNARY['tanh'][0], _seq_generic(mpmath.tanh), R((-0.5, 0.5))),
+    'reciprocal': (UNARY['reciprocal'][0], _seq_generic(lambda x: 1 / x), R((0.8, 3))),
+    'expm1': (UNARY['expm1'][0], _seq_generic(mpmath.expm1), R((-1, 1))),
+    'log1p': (UNARY['log1p'][0], _seq_generic(mpmath.log1p), R((0.0, 2))),
+    'logit': (UNARY['logit'][0], _seq_generic(lambda x: mpmath.log(x / (1 - x))), R((0.35, 0.65))),
+    'expit': (UNARY['expit'][0], _seq_generic(lambda x: 1 / (1 + mpmath.exp(-x))), R((-1, 1))),
+    'gammaln': (UNARY['gammaln'][0],
+                lambda x0, D: [mpmath.loggamma(x0)] + [mpmath.psi(k - 1, x0) / mpmath.factorial(k) for k in range(1, D)], R((1.0, 4))),
+    'psi': (UNARY['psi'][0], lambda x0, D: [mpmath.psi(k, x0) / mpmath.factorial(k) for k in range(D)], R((1.0, 4))),
+    'polygamma1': (lambda x: algopy.special.polygamma(1, x),
+                   lambda x0, D: [mpmath.psi(1 + k, x0) / mpmath.factorial(k) for k in range(D)], R((1.0, 4))),
+    'hyperu': (lambda x: algopy.special.hyperu(1.5, 0.5, x),
+               lambda x0, D: [(-1) ** k * mpmath.rf(1.5, k) * mpmath.hyperu(1.5 + k, 0.5 + k, x0) / mpmath.factorial(k) for k in range(D)],
+               R((1.5, 4))),
+}
+
+
+# distance from x_0 to the nearest singularity of f (entire functions: a nominal 1.5): x_1 is drawn as a fraction 0.5..0.9 of it,
+# so that the contribution of the k-th derivative to coefficient k decays only like 0.9^k and stays visible at k > 20
+RADIUS = {
+    'exp': lambda x0: 1.5,
+    'log': lambda x0: abs(x0),
+    'sqrt': lambda x0: abs(x0),
+    'sin': lambda x0: 1.5,
+    'cos': lambda x0: 1.5,
+    'tan': lambda x0: np.pi / 2 - abs(x0),
+    'arctan': lambda x0: np.sqrt(1 + x0 * x0),
+    'tanh': lambda x0: np.pi / 2,
+    'reciprocal': lambda x0: abs(x0),
+    'expm1': lambda x0: 1.5,
+    'log1p': lambda x0: 1 + x0,
+    'logit': lambda x0: min(x0, 1 - x0),
+    'expit': lambda x0: np.pi,
+    'gammaln': lambda x0: x0,
+    'psi': lambda x0: x0,
+    'polygamma1': lambda x0: x0,
+    'hyperu': lambda x0: x0,
+}
+
+
+def prop_large(case, stats):
+    from ..oracles import mp_compose
+    name = case['f']
+    call, seq, _ = LARGE[name]
+    x = case['x']
+    y = guard(call, UTPM(x.copy()))
+    if not isinstance(y, UTPM) or y.data.shape != x.shape:
+        raise Violation('%s: result type/shape' % name)
+    for p in range(x.shape[1]):
+        ref = mp_compose(seq, list(x[:, p]))
+        _compare(y.data[:, p], ref, 1e-6 if name == 'hyperu' else 1e-9, stats, '%s[D=%d, p=%d]' % (name, x.shape[0], p))
+
+
+@st.composite
+def large_cases(draw, name, tier):
+    D = draw(st.sampled_from([24, 16, 28, 12, 20] if tier == 'thorough' else [24, 16, 12]))
+    P = draw(st.sampled_from([1, 2]))
+    dom = LARGE[name][2]
+    x = np.zeros((D, P))
+    x[0] = draw(gen.float_array((P,), dom, sparse=False))
+    ratio = draw(gen.float_array((P,), gen.interval_union((0.5, 0.9), (-0.9, -0.5)), sparse=False))
+    x[1] = ratio * np.array([RADIUS[name](v) for v in x[0]])
+    for k in draw(st.lists(st.integers(2, D - 1), max_size=2, unique=True)):
+        x[k] = draw(gen.float_array((P,), gen.nice_floats(-0.05, 0.05), sparse=False))
+    return {'f': name, 'x': x, 'entry': 'global', 'pos': None}
+
+
+# ---------------------------------------------------------------------------
 
 def _n(tier, name):
     if tier == 'quick':
@@ -369,6 +453,9 @@ def buckets(tier):
     for kind in ('int', 'negint', 'real', 'rpow', 'xy'):
         bl.append(Bucket('pow:' + kind, (lambda kind=kind: pow_cases(kind, tier)), prop_pow,
                          {'quick': 150, 'thorough': 1500}, nontrivial=_nontrivial, classes=_classes))
+    for name in LARGE:
+        bl.append(Bucket('largeD:' + name, (lambda name=name: large_cases(name, tier)), prop_large,
+                         {'quick': 8, 'thorough': 60}, nontrivial=_nontrivial, classes=_classes, weight=40.0))
     for name in ('absolute', 'abs', 'fabs', 'sign', 'minimum', 'maximum', 'botched_clip'):
         bl.append(Bucket('kink:' + name, (lambda name=name: kink_cases(name, tier)), prop_kink,
                          {'quick': 150, 'thorough': 1500}, nontrivial=_nontrivial, classes=_classes))
